@@ -8,8 +8,7 @@ KNOWN_TYPES = {"Voltage", "Current", "CurrentS", "Frequency", "Power", "PowerS",
                "Calculated", "EnumCalculated"}
 
 
-class Unmodelled(Exception):
-    pass
+UNMODELLED: set[str] = set()      # type names seen that Decode.tla gives no meaning to: listed, never judged by value
 
 
 def labels_of(s) -> list | None:
@@ -22,7 +21,9 @@ def labels_of(s) -> list | None:
 def entry(s) -> dict:
     ty = type(s).__name__
     if ty not in KNOWN_TYPES:
-        raise Unmodelled(f"UNMODELLED type={ty} sensor={s.id_}")
+        # a sensor class the specification does not know (added after the specification was written): it takes part in the
+        # key / window / read-only clauses, its value is not judged (Decode.tla: "unmodelled"); reported as a note
+        UNMODELLED.add(ty)
     return {"id": s.id_, "ty": ty, "addr": int(s.offset), "size": int(s.size_), "scale": int(getattr(s, "scale", 0) or 0),
             "labels": labels_of(s), "addrL": int(getattr(s, "_offsetL", 0) or 0)}
 
